@@ -91,7 +91,9 @@ def object_roles(prog):
                     r0 = cm.view_info(f, ls[0])[0] if ls else None
                     if r0 in (1, 2, 3):
                         out[("hash", "salt", "config")[r0 - 1]] = nm
-    for f in cm.find_method(prog, "pwhash::PwHash", "hash_with_salt"):
+    # the call to the public crypto_pwhash(.., opslimit, memlimit, algorithm) made on behalf of the object
+    # API, wherever it lives (hash_with_salt itself or a private helper of Config)
+    for f in [g for g in prog.fns if g.path.startswith(("pwhash::", "<pwhash::"))]:
         for c in f.calls():
             if c.rpath == "classic::crypto_pwhash::crypto_pwhash" and len(c.args) == 6:
                 for i, role in ((3, "opslimit"), (4, "memlimit"), (5, "algorithm")):
